@@ -2,9 +2,9 @@
    Same directives as Extract_kernels.v (trusted base, DESIGN.md section 6). *)
 From Coq Require Import Extraction ExtrOcamlBasic ExtrOcamlNatInt ExtrOcamlZBigInt.
 From Coq Require Import QArith Qcanon.
-From Amgcl Require Import Scalar QcInst Vec Crs Kernels DirectUtil CuthillMcKee Direct Inverse StaticMat Qr DirectSpec.
+From Amgcl Require Import Scalar QcInst Vec Crs Kernels DirectUtil CuthillMcKee Direct Inverse StaticMat Qr QrObj DirectSpec.
 Extraction Blacklist List String Int Nat.
 Set Extraction Optimize.
 Separate Extraction
   QcInst.QcS Scalar.is_zero Scalar.smax Scalar.smin
-  Vec Crs Kernels DirectUtil CuthillMcKee Direct Inverse StaticMat Qr DirectSpec.
+  Vec Crs Kernels DirectUtil CuthillMcKee Direct Inverse StaticMat Qr QrObj DirectSpec.
